@@ -272,7 +272,7 @@ FIXED = [
 ]
 
 
-def correspond(ctx):
+def _correspond_selection(ctx):
     rnd = ctx.rng("trees")
     n = ctx.pick(500, 6000)
     cases = [dict(c) for c in FIXED]
@@ -370,3 +370,25 @@ def replay(payload):
     print("analysed:     %s" % real["analysed"])
     print("violated:     %s" % (bad or "nothing"))
     return not bad
+
+
+def correspond(ctx):
+    """the selection streams above PLUS histories of CLI entry calls (`codelimit.__main__.scan/check/report/findings` called as
+    functions in one fresh interpreter per history; harness/entry_stream.py): the exclusion lines handed to PathSpec.from_lines, the files
+    analysed, exit codes, what report/findings display and the process-level Configuration after every call vs Model/Entry.lean
+    (Props/Entry.lean: which lines are in force for scan and for check, accumulation across calls, display iff the cached report
+    carries the tool's version)"""
+    import entry_stream
+    res = _correspond_selection(ctx)
+    er = entry_stream.correspond(ctx.rng("entry"), ctx.pick(100, 2000), common.DRIVER, repo=common.REPO)
+    for d in er["disagreements"][:10]:
+        res["disagreements"].append({"stream": "entry", "input": d.get("input", d.get("history", {k: v for k, v in d.items() if k not in ("model", "real", "impl")})),
+                                     "model": str(d.get("model"))[:300], "impl": str(d.get("real", d.get("impl")))[:300]})
+    c = er["counts"]
+    if c.get("worker_errors") or c.get("model_errors"):
+        res["disagreements"].append({"stream": "entry/errors", "input": {"worker_errors": c.get("worker_errors"), "model_errors": c.get("model_errors")},
+                                     "model": "", "impl": ""})
+    res["evaluations"] += c.get("histories", 0)
+    res["distribution"] = dict(res.get("distribution", {}), entry={k: v for k, v in c.items() if not isinstance(v, dict)})
+    res["rule"] += " PLUS histories of 1-3 entry calls (scan / check / report / findings with --exclude, .codelimit.yml, .gitignore, cwd = root / below / elsewhere) in fresh interpreters vs the entry model"
+    return res
